@@ -5,6 +5,7 @@ import (
 	"encoding/json"
 	"fmt"
 	"strings"
+	"unicode/utf16"
 )
 
 type builtinJSONParseContext struct {
@@ -160,12 +161,12 @@ func builtinJSONStringify(call FunctionCall) Value {
 		}
 		switch spaceValue.kind {
 		case valueString:
+			// The gap is the first 10 characters (UTF-16 code units) of the string, not its first 10 bytes.
 			value := spaceValue.string()
-			if len(value) > 10 {
-				ctx.gap = value[0:10]
-			} else {
-				ctx.gap = value
+			if units := utf16.Encode([]rune(value)); len(units) > 10 {
+				value = string(utf16.Decode(units[:10]))
 			}
+			ctx.gap = value
 		case valueNumber:
 			value := spaceValue.number().int64
 			if value > 10 {
